@@ -105,12 +105,77 @@ def _dl_agg_sum():
     DataCondition.forward = forward
 
 
+def _uf_defaults_head():
+    import inspect
+    from torchphysics.utils.user_fun import UserFunction
+
+    def _set(self):
+        spec = inspect.getfullargspec(self.fun)
+        self.args = spec.args + spec.kwonlyargs
+        self.defaults = {}
+        if spec.defaults is not None:
+            self.defaults = {self.args[i]: spec.defaults[i] for i in range(len(spec.defaults))}
+    UserFunction._set_input_args_for_function = _set
+
+
+def _uf_pe_nocopy():
+    from torchphysics.utils.user_fun import UserFunction
+
+    def pe(self, **args):
+        if callable(self.fun):
+            if all(arg in args for arg in self.necessary_args):
+                inp = {key: args[key] for key in self.args if key in args}
+                inp.update({key: self.defaults[key] for key in self.args if key not in args})
+                return self.fun(**inp)
+            self.set_default(**args)
+            return self
+        return self.fun
+    UserFunction.partially_evaluate = pe
+
+
+def _uf_positional():
+    from torchphysics.utils.user_fun import UserFunction
+    from torchphysics.problem.spaces import Points
+
+    def call(self, args={}, vectorize=False):
+        if isinstance(args, Points):
+            args = args.coordinates
+        for key in self.necessary_args:
+            assert key in args
+        vals = [args[k] for k in args if k in self.args]       # in the order of the MAPPING
+        names = [k for k in self.args if k in args]            # in the order of the signature
+        inp = dict(zip(names, vals))
+        inp.update({key: self.defaults[key] for key in self.args if key not in args})
+        return self.evaluate_function(**inp)
+    UserFunction.__call__ = call
+
+
+def _uf_optional_dropped():
+    from torchphysics.utils.user_fun import UserFunction
+
+    def pe(self, **args):
+        import copy
+        if callable(self.fun):
+            if all(arg in args for arg in self.necessary_args):
+                inp = {key: args[key] for key in self.args if key in args}
+                inp.update({key: self.defaults[key] for key in self.args if key not in args})
+                return self.fun(**inp)
+            c = copy.deepcopy(self)
+            c.defaults = {k: args[k] for k in args if k in self.args}     # forgets the previous defaults
+            return c
+        return self.fun
+    UserFunction.partially_evaluate = pe
+
+
 REGISTRY = {
+    "uf_defaults_head": _uf_defaults_head, "uf_pe_nocopy": _uf_pe_nocopy, "uf_positional": _uf_positional,
+    "uf_pe_forgets_defaults": _uf_optional_dropped,
     "static_le": _static_le, "static_restatic_bonus": _static_nocount_restatic,
     "adaptive_le": _adaptive_le, "adaptive_newonly": _adaptive_newonly,
     "dl_target_perm": _dl_target_perm, "dl_len_floor": _dl_len_floor, "dl_agg_global_mean": _dl_agg_sum,
 }
 BY_PROPERTY = {
+    "C13": ["uf_defaults_head", "uf_pe_nocopy", "uf_positional", "uf_pe_forgets_defaults"],
     "C15": ["static_le", "static_restatic_bonus", "adaptive_le", "adaptive_newonly"],
     "C16": ["dl_target_perm", "dl_len_floor", "dl_agg_global_mean"],
 }
